@@ -100,21 +100,26 @@ def judgeFrameModel (r : Rec) : List (String × String) × List String := Id.run
 /-- record kind 6 (fresh context, fast level, LINKED blocks, no dictionary, compressed updates only): the schedule logged by the interposed
     `LZ4_compress_fast_continue` / `LZ4_saveDict` calls is replayed by `Model/FrameLinked.lean`; the frame bytes must be the model's, the blocks of the
     schedule must spell out the input, every logged return value must be the stream model's -/
-def judgeFrameLinked (r : Rec) : List (String × String) × List String := Id.run do
+def judgeFrameLinked (r : Rec) (oneShot : Bool := false) : List (String × String) × List String := Id.run do
   if r.args.size < 15 then return ([], [])
   let input := r.bytes 12
   let frame := r.bytes 13
-  let life := r.bytes 14
+  let life := r.bytes (if oneShot then 15 else 14)
   if frame.size == 0 then return ([], ["framelinked.skipped"])
   let bsidReq := r.nat 1
-  let p : LZ4V.Model.FrameFast.Prefs := LZ4V.Model.FrameFast.Prefs.mk (if bsidReq == 0 then 4 else bsidReq) (r.nat 4 == 1) (r.nat 3 == 1) (rdLE (r.bytes 5) 0 8) (r.nat 6) (r.int 7) (r.nat 8 != 0)
+  let bsidDefault := if bsidReq == 0 then 4 else bsidReq
+  -- `LZ4F_compressFrame`: block size id chosen by `LZ4F_optimalBSID`, a declared content size corrected to the real one
+  let p : LZ4V.Model.FrameFast.Prefs :=
+    if oneShot then LZ4V.Model.FrameFast.Prefs.mk (LZ4V.Gen.LZ4F_optimalBSID bsidDefault input.size).toNat (r.nat 4 == 1) (r.nat 3 == 1) (if rdLE (r.bytes 5) 0 8 != 0 then input.size else 0) (r.nat 6) (r.int 7) true
+    else LZ4V.Model.FrameFast.Prefs.mk bsidDefault (r.nat 4 == 1) (r.nat 3 == 1) (rdLE (r.bytes 5) 0 8) (r.nat 6) (r.int 7) (r.nat 8 != 0)
   let mut ops : List LZ4V.Model.FrameLinked.LOp := []
   let mut pc := 0
   let mut bad := false
   let mut nsave := 0
   let mut nfail := 0
   -- the state of the context's LZ4 stream when the first block arrives (dumped from the real context)
-  let ini := if r.args.size > 15 then r.bytes 15 else ByteArray.empty
+  let iniIdx := if oneShot then 16 else 15
+  let ini := if r.args.size > iniIdx then r.bytes iniIdx else ByteArray.empty
   let S0 : LZ4V.Model.FastX.XState :=
     if ini.size ≥ 24 + 4 * LZ4V.Gen.LZ4_HASH_SIZE_U32 then
       { tbl := (Array.range LZ4V.Gen.LZ4_HASH_SIZE_U32).map (fun i => rdLE ini (24 + 4 * i) 4), currentOffset := rdLE ini 0 4, dictAddr := rdLE ini 8 8, dict := #[], used := rdLE ini 16 4 != 0 }
@@ -227,6 +232,9 @@ def judgeFrame (blobs : Std.HashMap Nat ByteArray) (r : Rec) : Verdict := Id.run
     if kind == 6 then
       let m := judgeFrameLinked r
       v := { v with fails := m.1 ++ v.fails, tags := m.2 ++ v.tags }
+    if kind == 7 then
+      let m := judgeFrameLinked r true
+      v := { v with fails := m.1 ++ v.fails, tags := ("framelinked.compressFrame" :: m.2) ++ v.tags }
   return v
 
 def skippableLen (b : ByteArray) : Option Nat :=
